@@ -471,7 +471,11 @@ def approximate_frac(f):
         return "~" + sign + "1e" + str(len(str(whole)) - 1)
 
 def precisionify_float(f):
-    fstring = "{:." + str(ka.config.get(ConfigProperties.PRECISION)) + "g}"
+    precision = ka.config.get(ConfigProperties.PRECISION)
+    if not 0 <= precision <= 2**31 - 1:
+        # An out-of-range setting must not break every float display.
+        precision = ConfigProperties.PRECISION.default
+    fstring = "{:." + str(precision) + "g}"
     return fstring.format(f)
 
 def prettify_frac(f, brackets=False):
